@@ -184,6 +184,19 @@ def run_property(mod, tier: str, seed: int, shrink_budget=80, max_report=24) -> 
         nshards = min(nshards, mod.MAX_WORKERS)
     results = common.run_sharded(_worker, [(mod.__name__, i, nshards, tier, seed) for i in range(nshards)],
                                  progress_tags=[f"{mod.PID}_{i}" for i in range(nshards)])
+    # a worker that died (segfault in compiled code) is re-run in a fresh process: a crash counts as a failing input only if
+    # it happens again (the same policy as for every other reported case: what cannot be reproduced cannot be replayed)
+    for i, r in enumerate(results):
+        tries = 0
+        while r.get("crashed") and tries < 2:
+            tries += 1
+            common.log(f"worker {i} died (exit code {r.get('exitcode')}) at {json.dumps(r.get('last_case'), default=str)[:300]}: re-running the shard (attempt {tries})")
+            r2 = common.run_sharded(_worker, [(mod.__name__, i, nshards, tier, seed)], progress_tags=[f"{mod.PID}_{i}_retry{tries}"])[0]
+            if not r2.get("crashed"):
+                run.extra["transient_worker_crashes"] = run.extra.get("transient_worker_crashes", 0) + 1
+                common.log(f"TRANSIENT: worker {i} completed its shard in a fresh process; the crash is not reported")
+            r = r2
+        results[i] = r
     first_bad = {}
     harness_errors = []
     for r in results:
